@@ -395,7 +395,9 @@ pub fn find_chrom<'a>(v: &'a [ChromInfo], chrom_name: &Name) -> (r: Option<&'a C
                 [[L: bg_st/inner/frame]]
                 0 <= i__1 < chroms@.len(), *chrom == chroms@[i__1 as int],
                 bigwig.file() == f0, bigwig.table() == old(bigwig).table(), wanted(old(bigwig).table(), chrom0) == Some(chroms@),
+                [[L: bg_st/inner/one_query_for_this_chromosome_name_start_or_0_end_or_length]]
                 bigwig.queries() == q0 + all_queries(chroms@, i__1 as int, s_, e_).push(chrom_query(*chrom, s_, e_)),
+                [[L: bg_st/inner/records_are_the_range_query_result_for_name_start_or_0_end_or_length]]
                 chrom_answer::<Value>(f0, *chrom, s_, e_) == Ok::<Seq<Result<Value, BBIReadError>>, BBIReadError>(values.all()),
                 values.pos() <= values.all().len(),
                 [[L: bg_st/inner/line_buffer_empty_at_each_record]]
